@@ -10,6 +10,10 @@ Rules (keys are rule:unit:function:construct):
   R07.7 consumers: no narrow intermediate that is widened again; const_expr returns the value unchanged;
         shifts by bit_width/bit_offset are 64-bit (all units); case labels: see R03.2
   R07.8 operator table of eval2 / eval_double, type dispatch between the two, eval_double's ND_CAST
+  R07.9 operands that run-time evaluation does not evaluate (unselected arm of ?:, right operand of a decided && / ||)
+        are not folded either (eval2, eval_double); is_const_expr folds an operand only after it was found constant
+  R07.10 relocation out-parameter of eval2 / eval_rval: written at most once per evaluation, by the operand that
+        can denote the address, whose value enters the result additively; never through a null pointer
 
 The folder (parse.c eval2 / eval_double / is_const_expr) is summarised once per
 node kind by a path-splitting symbolic executor (sa/lib_c07.py) that keeps, for
@@ -193,12 +197,15 @@ def run(P, rep, tier):
                        'signed/unsigned instruction choice for the same kind over the complete catalogue of integer types (R07.1), with the reduction '
                        'to the node type that 64-bit host arithmetic needs (R07.2), with zero-divisor diagnosis (R07.4), with is_const_expr (R07.5) and '
                        'with the typing relation for floating operands (R07.6); typed patterns over all units find mixed-sign conditionals (R07.3) and '
-                       'narrowing between the folder and its consumers (R07.7). Equality of values for whole expressions is the consequence by '
+                       'narrowing between the folder and its consumers (R07.7). Per path of each arm the set of operands handed to the folder is compared with the operands '
+                       'run-time evaluation evaluates (R07.9: unselected arm of ?:, right operand of a decided && ||), and the writes of the relocation '
+                       'out-parameter are counted and matched with the operand that can denote an address and with its coefficient in the result (R07.10). Equality of values for whole expressions is the consequence by '
                        'structural induction and is not decided here.')
     rep.assumptions += ['typing relation of each kind as produced by add_type (R01.2)',
                         'children satisfy the induction hypothesis: eval of a child returns its value sign/zero-extended from the child type to 64 bits',
                         'eval/eval2/eval_double/is_const_expr are pure (add_type is idempotent)',
-                        'signed overflow in a constant expression is undefined: no reduction is demanded for signed node types']
+                        'signed overflow in a constant expression is undefined: no reduction is demanded for signed node types',
+                        'an address constant reaches the folder with the pointer operand in lhs of + and - (new_add/new_sub canonical form)']
     r078(F, rep)
     r072(F, rep)
     r071(F, P, rep)
@@ -207,6 +214,8 @@ def run(P, rep, tier):
     r076(F, rep)
     r073(P, rep)
     r077(F, P, rep)
+    r079(F, rep)
+    r0710(F, rep)
 
 
 # ------------------------------------------------------------------ R07.8 ---
@@ -489,6 +498,7 @@ def _rec_guards(p):
         r = as_rec(a)
         if r and a[0] == 'call' and r[0] != 'is_const_expr':
             out[r[1]] = t
+    out.update(_child_truth(p))      # also `f(child) != 0`, `f(child) == 0` (a floating comparison is kept as an atom by the summariser)
     return out
 
 
@@ -921,6 +931,244 @@ def r076(F, rep):
                    '%s of %s evaluates its operand(s) %s with the integer folder although the operand may have floating type: the value is truncated towards zero before the operator is applied%s' % (
                        fname, kind, ','.join(sorted(bad)), (' (' + ex + ')') if ex and fname == 'eval2' else ''),
                    where='%s:%d' % (U, line_of_kind(u, fname, F.E[kind])))
+
+
+# ------------------------------------------------------------------ R07.9 ---
+EVALUATORS = ('eval2', 'eval_double', 'eval_rval')
+# operators whose operands are evaluated conditionally (C11 6.5.13p4, 6.5.14p4, 6.5.15p4):
+# kind -> (deciding child, {truth of the deciding child: operands evaluated in addition to it})
+LAZY = {'ND_COND': ('cond', {True: ('then',), False: ('els',)}),
+        'ND_LOGAND': ('lhs', {True: ('rhs',), False: ()}),
+        'ND_LOGOR': ('lhs', {True: (), False: ('rhs',)})}
+LAZY_EXAMPLE = {'ND_COND': '`N ? T / N : 0` with N == 0 is rejected with a division-by-zero diagnostic, `1 ? 2 : x` with a non-constant x is rejected, and in a static initializer '
+                           '`c ? &a : &b` takes the relocation of whichever arm was folded last',
+                'ND_LOGAND': '`N && T / N` with N == 0 is rejected with a division-by-zero diagnostic although the right operand is not evaluated',
+                'ND_LOGOR': '`!N || T / N` with N == 0 is rejected with a division-by-zero diagnostic although the right operand is not evaluated'}
+
+
+def _is_zero(v):
+    v = strip_widening(v)
+    return (v[0] == 'int' and v[1] == 0) or (v[0] == 'flt' and v[1] == 0)
+
+
+def _child_truth(p):
+    """{child: truth} for the guards of a path that test a folded child for (non-)zero, in any of the forms
+    `f(child)`, `f(child) != 0`, `f(child) == 0` (with conversions that keep zero-ness)"""
+    out = {}
+    for a, t in p.guards:
+        a = strip_widening(a)
+        flip = False
+        if a[0] == 'bin' and a[1] in ('==', '!='):
+            x, y = strip_widening(a[2]), strip_widening(a[3])
+            if _is_zero(y) and x[0] == 'call':
+                flip = a[1] == '=='; a = x
+            elif _is_zero(x) and y[0] == 'call':
+                flip = a[1] == '=='; a = y
+            else:
+                continue
+        if a[0] == 'call' and a[1] in EVALUATORS and a[2] and a[2][0][0] == 'fld' and a[2][0][1] == NODE:
+            out[a[2][0][2]] = (not t) if flip else t
+    return out
+
+
+def _folded(p):
+    """[(evaluator, child, call value)] for the calls of the folder on a child of the node, in program order"""
+    out = []
+    for e in p.events:
+        if e[0] == 'call' and e[1] in EVALUATORS and e[2] and e[2][0][0] == 'fld' and e[2][0][1] == NODE:
+            out.append((e[1], e[2][0][2], ('call', e[1], e[2])))
+    return out
+
+
+def r079(F, rep):
+    u = F.u
+    rep.rule('R07.9', 'the folder evaluates an operand of ?: && || only when run-time evaluation evaluates it: on every path the unselected arm of ?: and the '
+                      'right operand of an already decided && / || are not handed to eval2/eval_double/eval_rval; is_const_expr folds an operand only after it found it constant',
+             floor=4)
+    for fname in ('eval2', 'eval_double'):
+        for kind in sorted(LAZY):
+            decider, extra_by_truth = LAZY[kind]
+            try:
+                ps = F.flo_paths(kind) if fname == 'eval_double' else F.int_paths(kind)
+            except Unsupported as e:
+                rep.undecided('R07.9', '%s:%s:%s/evaluates-only-selected-operands' % (U, fname, kind), 'cannot summarise: %s' % e)
+                continue
+            rets = [p for p in ps if p.outcome[0] == 'ret' and any(c for f, c, v in _folded(p))]
+            if not rets:
+                continue          # no arm (eval_double has none for && ||); a missing arm is reported by R07.8
+            w = '%s:%d' % (U, line_of_kind(u, fname, F.E[kind]))
+            eager = set(); und = None
+            for p in rets:
+                g = _child_truth(p)
+                seen = set(c for f, c, v in _folded(p))
+                conditional = set(extra_by_truth[True]) | set(extra_by_truth[False])
+                d = g.get(decider)
+                if d is None:
+                    if seen & conditional:
+                        und = ('a path folds %s although it has not branched on the folded `%s` in a form the analysis recognises' % (
+                            ','.join(sorted(seen & conditional)), decider))
+                    continue
+                eager |= (seen & conditional) - set(extra_by_truth[d])
+            key = '%s:%s:%s/evaluates-only-selected-operands' % (U, fname, kind)
+            if eager:
+                rep.ob('R07.9', '%s:%s:%s/unevaluated-operand-folded:%s' % (U, fname, kind, ','.join(sorted(eager))), False,
+                       '%s of %s folds the operand(s) %s on a path on which the value of `%s` already excludes them: an operand that is not evaluated must not be folded '
+                       '(its diagnostics and its relocation leak into the result: %s)' % (fname, kind, ','.join(sorted(eager)), decider, LAZY_EXAMPLE[kind]), where=w)
+            elif und:
+                rep.undecided('R07.9', key, und, where=w)
+            else:
+                rep.ob('R07.9', key, True, '', where=w)
+    # is_const_expr: a call of the folder on an operand is dominated by is_const_expr(operand) being true
+    n = 0
+    for kind in F.kinds:
+        try:
+            cps = F.paths('is_const_expr', kind)
+        except Unsupported:
+            continue          # reported by R07.5
+        bad = set(); any_call = False
+        for p in cps:
+            for f, c, v in _folded(p):
+                any_call = True
+                if p.guard_of(('call', 'is_const_expr', (child(c),))) is not True:
+                    bad.add(c)
+        if not any_call:
+            continue
+        n += 1
+        w = '%s:%d' % (U, line_of_kind(u, 'is_const_expr', F.E[kind]))
+        rep.ob('R07.9', '%s:is_const_expr:%s/folds-%s' % (U, kind, ('unchecked-operand:' + ','.join(sorted(bad))) if bad else 'only-checked-operands'), not bad,
+               'is_const_expr of %s hands the operand(s) %s to the folder on a path that has not established is_const_expr(operand): for a non-constant operand '
+               '(`int a[n ? 1 : 2];`) the folder ends the compilation with "not a compile-time constant" where the answer should be "no"' % (kind, ','.join(sorted(bad))), where=w)
+    if n == 0:
+        rep.notes.append('R07.9: is_const_expr no longer evaluates any operand')
+
+
+# ----------------------------------------------------------------- R07.10 ---
+# operand through which an address constant flows (C11 6.6p9: & of a static object, array/function designator,
+# casts of those, plus or minus an integer constant; parse.c new_add/new_sub put the pointer in lhs)
+RELOC_THROUGH = {'eval2': {'ND_ADD': 'lhs', 'ND_SUB': 'lhs', 'ND_COND': None, 'ND_COMMA': 'rhs', 'ND_CAST': 'lhs', 'ND_ADDR': 'lhs', 'ND_MEMBER': 'lhs'},
+                 'eval_rval': {'ND_DEREF': 'lhs', 'ND_MEMBER': 'lhs'}}      # None: the selected arm
+RELOC_DIRECT = {'eval2': ('ND_VAR', 'ND_LABEL_VAL'), 'eval_rval': ('ND_VAR',)}
+ADDRESS_WIDE = ('ptr', 'long', 'ulong')
+
+
+def _coeff(v, w):
+    """coefficient with which the value w enters v additively (conversions transparent); None: not additive"""
+    if v == w:
+        return 1
+    if v[0] == 'cast':
+        return _coeff(v[3], w)
+    if v[0] == 'bin' and v[1] in ('+', '-'):
+        a, b = _coeff(v[2], w), _coeff(v[3], w)
+        if a is None or b is None:
+            return None
+        return a + b if v[1] == '+' else a - b
+    for x in walk(v):
+        if x == w:
+            return None
+    return 0
+
+
+def _rest(v, w, sign=1):
+    """the summands of v other than w, as [value] with conversions dropped; a subtracted summand is wrapped in ('neg', x)"""
+    if v == w:
+        return []
+    if v[0] == 'cast':
+        return _rest(v[3], w, sign)
+    if v[0] == 'bin' and v[1] in ('+', '-'):
+        return _rest(v[2], w, sign) + _rest(v[3], w, sign if v[1] == '+' else -sign)
+    return [v if sign > 0 else ('neg', v)]
+
+
+def r0710(F, rep):
+    u = F.u
+    rep.rule('R07.10', 'relocation out-parameter of eval2/eval_rval: on every path at most one write (a direct store or one callee receiving it), the callee is the folder '
+                       'on the operand that can denote the address and its value enters the result with coefficient +1; a direct store only after the pointer was tested', floor=25)
+    for fname in ('eval2', 'eval_rval'):
+        if fname not in u.functions:
+            raise AnalysisBroken('anchor function %s vanished from %s' % (fname, U))
+        for kind in F.kinds:
+            try:
+                ps = F.paths(fname, kind)
+            except Unsupported as e:
+                if kind in RELOC_THROUGH[fname] or kind in RELOC_DIRECT[fname]:
+                    rep.undecided('R07.10', '%s:%s:%s/relocation' % (U, fname, kind), 'cannot summarise: %s' % e)
+                continue
+            if fname == 'eval2':      # the hand-over of a floating node to eval_double is not an arm of the kind
+                ps = [p for p in ps if F._consistent(p, F.INTLIKE) or not F._consistent(p, F.FLOLIKE)]
+            rets = [p for p in ps if p.outcome[0] == 'ret']
+            if not rets:
+                if kind in RELOC_THROUGH[fname] or kind in RELOC_DIRECT[fname]:
+                    rep.ob('R07.10', '%s:%s:%s/arm' % (U, fname, kind), False,
+                           '%s has no arm for %s: an address constant built with it (static initializer) is rejected' % (fname, kind),
+                           where='%s:%d' % (U, u.fn(fname).line))
+                continue
+            w = '%s:%d' % (U, line_of_kind(u, fname, F.E[kind]))
+            bad = {}; und = None
+            for p in ps:
+                # a store through the out-parameter needs the pointer tested on this path (eval() passes NULL)
+                for e in p.events:
+                    if e[0] == 'store' and e[1] == ('deref', LABEL) and p.guard_of(LABEL) is not True:
+                        bad['store-through-untested-pointer'] = ('%s of %s stores through the relocation out-parameter on a path that has not tested it: eval() passes NULL, '
+                                                                 'so an object named in a constant expression outside a static initializer (`enum { A = (long)arr };`, `case (long)&x:`) kills the compiler instead of being diagnosed' % (fname, kind))
+            for p in rets:
+                calls = [e for e in p.events if e[0] == 'call' and LABEL in e[2]]
+                stores = [e for e in p.events if e[0] == 'store' and e[1] == ('deref', LABEL)]
+                who = []
+                for e in calls:
+                    a = e[2][0] if e[2] else None
+                    who.append(a[2] if a and a[0] == 'fld' and a[1] == NODE else e[1])
+                if len(calls) + len(stores) > 1:
+                    names = sorted(who) + ['direct-store'] * len(stores)
+                    bad['relocation-overwritten:' + ','.join(names)] = (
+                        '%s of %s writes the relocation out-parameter %d times on one path (%s): the last write wins, so the symbol of an operand that does not '
+                        'contribute to the result replaces the one that does (`c ? &a : &b` always gets the symbol folded last) or is added to a plain number' % (
+                            fname, kind, len(calls) + len(stores), ', '.join(names)))
+                    continue
+                # is the path one an address-typed node can take?  (guards that pin node->ty to a narrower/floating type exempt it)
+                if fname == 'eval2' and not F._consistent(p, ADDRESS_WIDE) and F._consistent(p, F.INTLIKE + F.FLOLIKE):
+                    continue
+                if kind in RELOC_DIRECT[fname]:
+                    if calls or len(stores) != 1:
+                        bad['symbol-not-stored'] = '%s of %s returns without having stored the symbol of the object in the relocation out-parameter: `int *p = arr;` loses its symbol' % (fname, kind)
+                    elif strip_widening(p.outcome[1]) != ('int', 0):
+                        bad['addend-of-symbol-not-zero'] = '%s of %s stores the symbol and returns %s as its addend: the object itself is `symbol + 0`' % (fname, kind, show(p.outcome[1]))
+                    continue
+                if kind not in RELOC_THROUGH[fname]:
+                    if calls or stores:
+                        bad['relocation-through-non-address-operand:' + ','.join(sorted(who) or ['direct-store'])] = (
+                            '%s of %s hands the relocation out-parameter to %s: the result of this operator is not `symbol + offset`, so `(long)&x` as an operand is '
+                            'accepted and folded as if it were its addend alone instead of being rejected' % (fname, kind, ','.join(sorted(who)) or 'a direct store'))
+                    continue
+                want = RELOC_THROUGH[fname][kind]
+                if want is None:
+                    d = _child_truth(p).get('cond')
+                    if d is None:
+                        und = 'a returning path of %s has not branched on the folded condition' % kind; continue
+                    want = 'then' if d else 'els'
+                if stores or len(calls) != 1 or who[0] != want or calls[0][1] not in ('eval2', 'eval_rval'):
+                    bad['address-operand-without-relocation:' + want] = (
+                        '%s of %s does not hand the relocation out-parameter to the folder on `%s` (it goes to: %s): an address constant in that operand '
+                        '(`&x + 1`, `(long)&x`, `c ? &a : &b`, `&s.m`) is rejected or loses its symbol' % (fname, kind, want, ','.join(who) or 'nothing'))
+                    continue
+                wv = ('call', calls[0][1], calls[0][2])
+                c = _coeff(p.outcome[1], wv)
+                if c != 1:
+                    bad['relocated-operand-not-additive:' + want] = (
+                        '%s of %s returns %s: the operand that carries the symbol enters the result %s, so the emitted `symbol + addend` is not the value of the expression' % (
+                            fname, kind, show(p.outcome[1]), 'non-additively' if c is None else 'with coefficient %d' % c))
+                elif kind in ('ND_MEMBER', 'ND_ADDR', 'ND_DEREF'):
+                    # the address of a member is the address of the aggregate plus the member's offset; & and * cancel
+                    rest = _rest(p.outcome[1], wv)
+                    want_rest = [('fld', ('fld', NODE, 'member'), 'offset')] if kind == 'ND_MEMBER' else []
+                    if rest != want_rest:
+                        bad['wrong-addend'] = ('%s of %s returns %s: the addend next to the operand\'s address must be %s' % (
+                            fname, kind, show(p.outcome[1]), 'node->member->offset' if want_rest else 'nothing'))
+            for construct, msg in sorted(bad.items()):
+                rep.ob('R07.10', '%s:%s:%s/%s' % (U, fname, kind, construct), False, msg, where=w)
+            if und and not bad:
+                rep.undecided('R07.10', '%s:%s:%s/relocation' % (U, fname, kind), und, where=w)
+            elif not bad:
+                rep.ob('R07.10', '%s:%s:%s/relocation' % (U, fname, kind), True, '', where=w)
 
 
 # ------------------------------------------------------------------ R07.3 ---
